@@ -109,6 +109,8 @@ Definition psv_part_check (d : list Z) : option psv_info * option string :=
                     [u32_at d (rti + 36); u32_at d (rti + 40); u32_at d (rti + 44)] in
   if (0 <? spatch) && (zlen d =? p4 + 4 + 16 * (sin + sout) + dep)
   then (Some info, Some ("PSV0 declares primitive/patch-constant signature elements but stores none"%string))
+  else if (zlen d <? p5 + dep) && ((p5 + dep - zlen d) mod 16 =? 0) && (p4 + 4 + dep <=? zlen d)
+  then (Some info, Some ("PSV0 declares more signature elements than it stores"%string))
   else if negb (zlen d =? p5 + dep) then (Some info, Some ("PSV0 part does not end where its tables end"%string))
   else if negb ((entry_off <? strsz) && nul_terminated_at strtab entry_off) then (Some info, Some ("PSV0 entry function name offset outside the string table"%string))
   else (Some info, psv_resources_ok d (Z.to_nat nres) (p1 + 4)).
